@@ -1812,6 +1812,14 @@ static void run_periodic_history(uint64_t seed, bool thorough)
   }
   script->flush_false  = r.chance(1, 8);
   script->export_fail  = r.chance(1, 8);
+  if (r.chance(1, 6))
+  {
+    // an Export that outlives export_timeout: the cycle gives up waiting, but the next cycle (periodic or
+    // flush-triggered) must still not enter Export before this one has returned
+    script->latency_mode = 2;
+    script->slow_us      = static_cast<unsigned>(c.timeout_ms + static_cast<int>(r.range(3, 12))) * 1000u;
+    R.count("histories_periodic_export_outlives_timeout");
+  }
 
   EventLog::get().reset();
   vf_configure(seed, c.yield_ppm, c.sleep_ppm, c.cas_ppm, c.wake_ppm, 200);
